@@ -12,12 +12,13 @@ if TYPE_CHECKING:
     import astroid
 
 
-get_returns = Extractor()
+# a value returned from the body of `try` is still returned
+get_returns = Extractor(skip_try=False)
 
 
 def has_returns(body: list) -> bool:
     expected = TOKENS.RETURN + TOKENS.YIELD + TOKENS.YIELD_FROM + TOKENS.RAISE
-    for expr in traverse(body=body):
+    for expr in traverse(body=body, skip_try=False):
         if isinstance(expr, expected):
             return True
     return False
